@@ -254,12 +254,13 @@ CHECKS["C18"] = {
 CHECKS["C19"] = {
     "gen_ties": ["Builtins", "Parser"],
     "level": "proof",
-    "lean_targets": ["Yae.Props.C19"],
+    "lean_targets": ["Yae.Props.C19", "Yae.Props.C19b"],
     "streams": [
         {"name": "debug", "quick_n": 2500, "thorough_n": 30000,
          "oracles": ["debug-result-differs", "debug-record", "debug-record-shifted", "debug-column-not-at-term", "debug-render-firstline", "debug-render-missing-value", "debug-panic", "process-crash"]},
+        {"name": "engine", "quick_n": 1500, "thorough_n": 20000, "oracles": ["api-panic", "process-crash"]},
     ],
-    "explanation": "Debug evaluation is the reference evaluator with dbg = true. Proved: it returns the same value or failure and, apart from the debug entries, the same host calls and prints as normal evaluation, for every expression, environment and fuel (C19.same_result, same_run); an entry is recorded exactly when an identifier / call / subscript / member node completes, carrying its value and column+1, literals record nothing and untaken branches record nothing (recorded_node, record_on_success, no_record_on_failure, record_ident, *_records_nothing, if_records_only_taken); Record.Rec keeps columns distinct and places an entry at its own column when free (rec_free, rec_first_free, rec_distinct_cols), so the record equals the entries whenever their columns are distinct (recordOf_faithful_partial; the kernel-checked d27_eval / d27_record show the shift when a thunk is forced twice: finding D27); the report's first line is the source (render_firstline). Tie: debug stream (result, hook-exported entries, report text) on single-line programs with non-ASCII identifiers, multi-line values, unevaluated lazy branches, lazy host functions; oracles: same result, entries equal an independent instrumented walk, first line, every recorded value shown at its column, every evaluated variable attributed to the column where its name stands in the source (also with tabs, carriage returns and Unicode spaces between tokens). The report: render_shows / render_shows_lines / render_shows_last (every recorded value with column >= 1 that is the last of its column stands, whole, on one report line below the source and the | line, starting at its column; a multi-line value on consecutive lines), render_hidden (the other entries do not influence the report), render_first_line, render_no_break, render_lines_join, and recordOf_shown (composition with the distinct-columns theorem for real records). Not proved: that the cells between values hold only blanks and |.",
+    "explanation": "Debug evaluation is the reference evaluator with dbg = true. Proved: it returns the same value or failure and, apart from the debug entries, the same host calls and prints as normal evaluation, for every expression, environment and fuel (C19.same_result, same_run); an entry is recorded exactly when an identifier / call / subscript / member node completes, carrying its value and column+1, literals record nothing and untaken branches record nothing (recorded_node, record_on_success, no_record_on_failure, record_ident, *_records_nothing, if_records_only_taken); Record.Rec keeps columns distinct and places an entry at its own column when free (rec_free, rec_first_free, rec_distinct_cols), so the record equals the entries whenever their columns are distinct (recordOf_faithful_partial; the kernel-checked d27_eval / d27_record show the shift when a thunk is forced twice: finding D27); the report's first line is the source (render_firstline). Tie: debug stream (result, hook-exported entries, report text) on single-line programs with non-ASCII identifiers, multi-line values, unevaluated lazy branches, lazy host functions; oracles: same result, entries equal an independent instrumented walk, first line, every recorded value shown at its column, every evaluated variable attributed to the column where its name stands in the source (also with tabs, carriage returns and Unicode spaces between tokens). The report: render_shows / render_shows_lines / render_shows_last (every recorded value with column >= 1 that is the last of its column stands, whole, on one report line below the source and the | line, starting at its column; a multi-line value on consecutive lines), render_hidden (the other entries do not influence the report), render_first_line, render_no_break, render_lines_join, and recordOf_shown (composition with the distinct-columns theorem for real records). Not proved: that the cells between values hold only blanks and |. Over the engine object (Model/Engine.lean, tied by the engine stream, in which closure.DebugCompile is one of the four compilers): the same Callable under the debug compiler and under the closure compiler returns the same value, failure or environment error, with the same host calls and print lines (C19.engine_debug_same_result); a refused environment records nothing (engine_debug_reject_records_nothing).",
     "assumptions": [],
 }
 
